@@ -23,9 +23,11 @@ func genRun(g *hx.Gen, fam int) string {
 	if g.Intn(30) == 0 {
 		f["val"] = strconv.Itoa(vals[len(vals)-2+g.Intn(2)])
 	}
-	f["algo"] = strconv.Itoa([]int{0, 0, 1, 3, 3, 2, 4, 99}[g.Intn(8)])
+	f["algo"] = strconv.Itoa([]int{0, 0, 1, 3, 3, 2, 4, 99, 8, 10}[g.Intn(10)])
 	if g.Intn(4) == 0 {
-		f["kids"] = g.Pick([]string{"-", "RSA:" + hx.HexS("id-rsa"), "EcDsa:" + hx.HexS("id-ec") + "+0:" + hx.HexS("d"), "3:" + hx.HexS("by-number"), "unknown:" + hx.HexS("u") + "+ed25519:" + hx.HexS("e")})
+		f["kids"] = g.Pick([]string{"-", "RSA:" + hx.HexS("id-rsa"), "EcDsa:" + hx.HexS("id-ec") + "+0:" + hx.HexS("d"), "3:" + hx.HexS("by-number"), "unknown:" + hx.HexS("u") + "+ed25519:" + hx.HexS("e"),
+			// numbers written with leading zeros are decimal numbers
+			"010:" + hx.HexS("slot-ten") + "+03:" + hx.HexS("slot-three"), "0010:" + hx.HexS("ten") + "+8:" + hx.HexS("eight") + "+001:" + hx.HexS("one")})
 	}
 	f["ca"] = g.Pick([]string{"certs:1:1", "certs:1:1", "certs:2:2", "certs:3:1", "certs:2:4", "certs:0:0", "certs:4:0", "plain", "foreign"})
 	switch fam {
@@ -56,7 +58,7 @@ func genRun(g *hx.Gen, fam int) string {
 		n := 1 + g.Intn(4)
 		var hs []string
 		for i := 0; i < n; i++ {
-			hs = append(hs, g.Pick([]string{"reg", "rej", "rej", "gkey:1:-:0", "gkey:2:-:0", "gempty", "gerr:handlerGenCSR", "gerr:invalidParams", "gerr:handlerConf", "gerr:other", "npanic", "apanic", "gpanic", "gkey:1:x:0", "gkey:1:-:1", "gkey:0:-:0", "gkeyn:1", "gkeyn:2"}))
+			hs = append(hs, g.Pick([]string{"reg", "rej", "rej", "gkey:1:-:0", "gkey:2:-:0", "gempty", "gerr:handlerGenCSR", "gerr:invalidParams", "gerr:handlerConf", "gerr:other", "npanic", "apanic", "gpanic", "gkey:1:x:0", "gkey:1:-:1", "gkey:0:-:0", "gkeyn:1", "gkeyn:2", "gcpanic"}))
 		}
 		f["hs"] = strings.Join(hs, "|")
 		if g.Bool() {
